@@ -1,2 +1,26 @@
 // Package c20 holds the workload and monitor for property C20 (see /verif/DESIGN.md §3).
+//
+// Files:
+//
+//	c20.go     worker entry, monitors 1 (token round trip) and 2 (Format / File.Bytes),
+//	           minimisation, replay, seeds from the tree
+//	gen.go     source generator (piece list: token text vs. blanks between tokens)
+//	lexutil.go native-scanner helpers: tiling check, gap normalisation, token diffs
+//	tree.go    structural dump of the native tree, evaluation scope, hcldec spec derived
+//	           from the shape of the source
+//	model.go   ordered-structure model (items, attached/standalone comments) built from the
+//	           native parser, and the comment/order matcher
+//	value.go   literal values handed to SetAttributeValue and their comparison
+//	edits.go   edit operations: applied to the model and to hclwrite, comparison, signatures,
+//	           edit-sequence generator
+//
+// Signatures:
+//
+//	tokens-roundtrip:lost|extra|bytes|changed:<Token>:<place>:after-<Token>   monitor 1
+//	tokens-roundtrip:gap-before-<Token>[(tab)]                                 monitor 1
+//	format-* / filebytes-*  (changes-token, not-idempotent, output-unparseable,
+//	                         tree-differs, decode-differs, verbatim-lost, ...)  monitor 2
+//	edit:<minimal op classes joined by +>:<symptom>                            monitor 3
+//	edit:<fixed name>   for the recognised defects of the unchanged tree (edits.go,
+//	                    (*editResult).signature), bom:treated-as-blanks
 package c20
